@@ -1607,12 +1607,13 @@ Qed.
 Lemma package_fault_import_outcome : forall pkgname i,
   package_fault (import_outcome pkgname i) <-> package_import_fault pkgname i.
 Proof.
-  intros pkgname i. unfold package_fault, package_import_fault, import_outcome. destruct i as [mnf ename| |ms].
+  intros pkgname i. unfold package_fault, package_import_fault, import_outcome. destruct i as [mnf ename| |ms|path].
   - destruct (names_the_package pkgname mnf ename) eqn:E.
     + apply names_the_package_iff in E. split; [discriminate|]. intros [_ H]. contradiction.
     + split; [|reflexivity]. intros _. split; [right; eauto|].
       intros H. apply names_the_package_iff in H. congruence.
   - split; [|reflexivity]. intros _. split; [now left|]. intros [n [H _]]. discriminate.
+  - split; [discriminate|]. intros [[H|[m [e H]]] _]; discriminate.
   - split; [discriminate|]. intros [[H|[m [e H]]] _]; discriminate.
 Qed.
 
@@ -1892,4 +1893,241 @@ Theorem only_selected_modes_marked : forall r ops,
 Proof.
   intros r ops Hw Hc e He. destruct (lifecycle_marked r ops Hw Hc) as [H _].
   rewrite <- periods_selections. eapply conforms_marked_modes; eauto.
+Qed.
+
+(* ================================================================== *)
+(* 14. Failing constructors, whatever makes the call raise             *)
+
+Lemma dict_set_In {V} : forall (d : list (string * V)) k v k' v',
+  In (k', v') (dict_set k v d) -> (k', v') = (k, v) \/ In (k', v') d.
+Proof.
+  induction d as [|[k0 v0] d IH]; intros k v k' v' H; simpl in H.
+  - destruct H as [H|[]]. left. now symmetry.
+  - destruct (k0 =? k).
+    + destruct H as [H|H]; [left; now symmetry|right; now right].
+    + destruct H as [H|H]; [right; now left|]. apply IH in H. destruct H; [now left|right; now right].
+Qed.
+
+(* only instances that were really constructed get into self.modes *)
+Lemma scan_items_modes_constructed : forall fms its st st' e,
+  scan_items fms its st = (st', e) ->
+  (forall k i, In (k, i) (s_modes st) -> ctor_raises (icls i) = false) ->
+  (forall k i, In (k, i) (s_modes st') -> ctor_raises (icls i) = false).
+Proof.
+  induction its as [|[f|i] its IH]; intros st st' e H Hc; simpl in H.
+  - now inversion H; subst.
+  - destruct fms; [eapply IH; eauto | now inversion H; subst].
+  - destruct (ctor_raises (icls i)) eqn:Ec.
+    + destruct fms; [eapply IH; [exact H|]; exact Hc | now inversion H; subst].
+    + assert (Hset : forall key k j, In (k, j) (dict_set key i (s_modes st)) -> ctor_raises (icls j) = false).
+      { intros key k j Hin. apply dict_set_In in Hin. destruct Hin as [Hin|Hin]; [now inversion Hin; subst|eauto]. }
+      destruct (dict_mem _ _).
+      * destruct fms; [eapply IH; [exact H|]; simpl; apply Hset | now inversion H; subst].
+      * eapply IH; [exact H|]. simpl. apply Hset.
+Qed.
+
+Theorem built_modes_constructed : forall fms p r,
+  discover fms p = Built r ->
+  forall k i, In (k, i) (modes r) -> ctor_raises (icls i) = false.
+Proof.
+  intros fms p r H. apply discover_built_inv in H. destruct H as [st [H1 [_ H3]]].
+  apply finish_init_ctors in H1. destruct H1 as [_ H1]. rewrite H1.
+  eapply scan_items_modes_constructed; [exact H3|]. simpl. intros k i [].
+Qed.
+
+(* A class with MODE_NAME, not DISABLED, of an importable module, whose call
+   raises -- [ctor_raises] says nothing about WHY it raises (__init__, __new__,
+   the metaclass, an abstract class, missing arguments):
+   without FMS start-up raises; with FMS the call is made all the same (that is
+   how the failure is found), the class is not offered, and every healthy mode
+   still is. *)
+Theorem failing_constructor_policy : forall p i,
+  In i (needed p) -> ctor_raises (icls i) = true ->
+  (exists e c, discover false p = Raised e c) /\
+  (exists r, discover true p = Built r /\
+     In (call_of i) (ctor_calls r) /\
+     (forall k j, In (k, j) (modes r) -> ctor_raises (icls j) = false) /\
+     (no_key_clash p ->
+      forall j, In j (needed p) -> healthy j = true ->
+        exists k, (k = name_of j \/ k = renamed j) /\
+                  dict_get k (modes r) = Some j /\
+                  In k (option_names r) /\
+                  (choosable k -> chooser_selected (chooser_of r) (Some k) = Some j))).
+Proof.
+  intros p i Hi Hc. split.
+  - apply no_fms_raises_iff. right. right. left. exists i. auto.
+  - destruct (fms_tolerates p) as [r [Hr Ht]]. exists r. split; [exact Hr|]. split.
+    + rewrite (built_ctor_calls _ _ _ Hr). now apply in_map.
+    + split; [exact (built_modes_constructed _ _ _ Hr)|exact Ht].
+Qed.
+
+(* every way of failing is a failing constructor *)
+Lemma fails_iff : forall b, fails b = true <-> b <> Constructs.
+Proof. intros []; simpl; split; congruence. Qed.
+
+(* ================================================================== *)
+(* 15. Implicit (namespace) packages: __path__ is treated as a set     *)
+
+Lemma existsb_eqb_In : forall d seen, existsb (String.eqb d) seen = true <-> In d seen.
+Proof.
+  intros d seen. rewrite existsb_exists. split.
+  - intros [x [Hx He]]. apply String.eqb_eq in He. now subst.
+  - intros H. exists d. split; [assumption|apply String.eqb_refl].
+Qed.
+
+Lemma existsb_eqb_not_In : forall d seen, existsb (String.eqb d) seen = false <-> ~ In d seen.
+Proof.
+  intros d seen. rewrite <- existsb_eqb_In. destruct (existsb _ _); split; congruence.
+Qed.
+
+Lemma dedup_dirs_sound : forall path seen po,
+  In po (dedup_dirs seen path) -> In po path /\ ~ In (pdir po) seen.
+Proof.
+  induction path as [|a path IH]; intros seen po H; simpl in H; [contradiction|].
+  destruct (existsb _ _) eqn:E.
+  - apply IH in H. destruct H. split; [now right|assumption].
+  - destruct H as [H|H].
+    + subst. split; [now left|]. now apply existsb_eqb_not_In.
+    + apply IH in H. destruct H as [H1 H2]. split; [now right|]. intros Hin. apply H2. now right.
+Qed.
+
+Lemma dedup_dirs_NoDup : forall path seen, NoDup (map pdir (dedup_dirs seen path)).
+Proof.
+  induction path as [|a path IH]; intros seen; simpl; [constructor|].
+  destruct (existsb _ _); [apply IH|]. simpl. constructor; [|apply IH].
+  intros Hin. apply in_map_iff in Hin. destruct Hin as [po [He Hin]].
+  apply dedup_dirs_sound in Hin. destruct Hin as [_ Hn]. apply Hn. left. now symmetry.
+Qed.
+
+Lemma dedup_dirs_complete : forall path seen po,
+  In po path -> ~ In (pdir po) seen -> In (pdir po) (map pdir (dedup_dirs seen path)).
+Proof.
+  induction path as [|a path IH]; intros seen po H Hn; [contradiction|]. simpl.
+  destruct (existsb _ _) eqn:E.
+  - destruct H as [H|H]; [subst; apply existsb_eqb_In in E; contradiction|now apply IH].
+  - simpl. destruct H as [H|H]; [subst; now left|].
+    destruct (string_dec (pdir a) (pdir po)) as [Heq|Hne]; [now left|].
+    right. apply IH; [assumption|]. intros [Hin|Hin]; contradiction.
+Qed.
+
+(* list(set(__path__)): every directory of __path__, once *)
+Theorem path_dirs_set : forall path,
+  NoDup (map pdir (path_dirs path)) /\
+  (forall po, In po (path_dirs path) -> In po path) /\
+  (forall d, In d (map pdir path) <-> In d (map pdir (path_dirs path))).
+Proof.
+  intros path. unfold path_dirs. split; [apply dedup_dirs_NoDup|]. split.
+  - intros po H. now apply dedup_dirs_sound in H.
+  - intros d. split; intros H; apply in_map_iff in H; destruct H as [po [He H]]; subst.
+    + apply dedup_dirs_complete; [assumption|intros []].
+    + apply dedup_dirs_sound in H. apply in_map. tauto.
+Qed.
+
+Lemma flat_files_NoDup : forall L : list portion,
+  NoDup (map pdir L) ->
+  (forall a, In a L -> NoDup (map file (pfiles a))) ->
+  (forall a b m n, In a L -> In b L -> In m (pfiles a) -> In n (pfiles b) ->
+     file m = file n -> pdir a = pdir b) ->
+  NoDup (map file (flat_map pfiles L)).
+Proof.
+  induction L as [|a L IH]; intros Hd Hf Hx; simpl; [constructor|].
+  simpl in Hd. inversion Hd as [|? ? Hn Hd']; subst.
+  rewrite map_app. apply NoDup_app_intro.
+  - apply Hf. now left.
+  - apply IH; [assumption| |].
+    + intros b Hb. apply Hf. now right.
+    + intros b c m n Hb Hc. apply Hx; now right.
+  - intros x Hx1 Hx2. apply Hn.
+    apply in_map_iff in Hx1. destruct Hx1 as [m [Hm1 Hm2]].
+    apply in_map_iff in Hx2. destruct Hx2 as [n [Hn1 Hn2]].
+    apply in_flat_map in Hn2. destruct Hn2 as [b [Hb Hn2]].
+    rewrite (Hx a b m n); [now apply in_map|now left|now right|assumption|assumption|congruence].
+Qed.
+
+(* the modules scanned for an implicit package: the files of its directories,
+   each ONCE, whatever __path__ repeats *)
+Theorem path_modules_once : forall path, path_ok path ->
+  NoDup (map file (path_modules path)) /\
+  (forall m, In m (path_modules path) <-> in_path path m).
+Proof.
+  intros path [Hsame [Hdisj Hnd]].
+  destruct (path_dirs_set path) as [H1 [H2 H3]]. unfold path_modules. split.
+  - apply flat_files_NoDup; [assumption| |].
+    + intros a Ha. apply Hnd. now apply H2.
+    + intros a b m n Ha Hb. apply Hdisj; now apply H2.
+  - intros m. rewrite in_flat_map. unfold in_path. split.
+    + intros [po [Hpo Hm]]. exists po. split; [now apply H2|assumption].
+    + intros [po [Hpo Hm]].
+      assert (Hd : In (pdir po) (map pdir (path_dirs path))) by (apply H3; now apply in_map).
+      apply in_map_iff in Hd. destruct Hd as [po' [He Hpo']]. exists po'. split; [assumption|].
+      rewrite (Hsame po' po); [assumption|now apply H2|assumption|assumption].
+Qed.
+
+Lemma dedup_dirs_skip : forall a seen po b,
+  In (pdir po) seen -> dedup_dirs seen (a ++ po :: b) = dedup_dirs seen (a ++ b).
+Proof.
+  induction a as [|x a IH]; intros seen po b H; simpl.
+  - apply existsb_eqb_In in H. now rewrite H.
+  - destruct (existsb _ _); [now apply IH|]. f_equal. apply IH. now right.
+Qed.
+
+(* an entry of __path__ that names a directory listed earlier changes nothing *)
+Theorem repeated_portion_ignored : forall pre po mid po' post,
+  pdir po' = pdir po ->
+  path_modules (pre ++ po :: mid ++ po' :: post) = path_modules (pre ++ po :: mid ++ post).
+Proof.
+  intros pre po mid po' post He. unfold path_modules, path_dirs. f_equal.
+  generalize (@nil string) as seen.
+  induction pre as [|x pre IH]; intros seen; simpl.
+  - destruct (existsb _ _) eqn:E.
+    + apply dedup_dirs_skip. rewrite He. now apply existsb_eqb_In.
+    + f_equal. apply dedup_dirs_skip. left. now symmetry.
+  - destruct (existsb _ _); [apply IH|]. f_equal. apply IH.
+Qed.
+
+Theorem namespace_repeated_directory_ignored : forall fms pkgname pre po mid po' post,
+  pdir po' = pdir po ->
+  init fms pkgname (ImportedNamespace (pre ++ po :: mid ++ po' :: post)) =
+  init fms pkgname (ImportedNamespace (pre ++ po :: mid ++ post)).
+Proof.
+  intros. unfold init, import_outcome. now rewrite repeated_portion_ignored.
+Qed.
+
+Lemma NoDup_map_filter {A B} (f : A -> B) (g : A -> bool) : forall l,
+  NoDup (map f l) -> NoDup (map f (filter g l)).
+Proof.
+  induction l as [|x l IH]; simpl; intros H; [constructor|].
+  inversion H as [|? ? Hn Hd]; subst. destruct (g x); simpl; [|now apply IH].
+  constructor; [|now apply IH]. intros Hin. apply Hn.
+  apply in_map_iff in Hin. destruct Hin as [y [Hy Hin]]. apply filter_In in Hin.
+  apply in_map_iff. exists y. tauto.
+Qed.
+
+(* "once each": for an implicit package too -- several directories, the same
+   directory several times -- every class with MODE_NAME and not DISABLED found
+   in a module of one of the directories is called exactly once, nothing else is *)
+Theorem namespace_instantiated_once : forall fms pkgname path r,
+  init fms pkgname (ImportedNamespace path) = Built r ->
+  path_ok path ->
+  (forall m, in_path path m -> NoDup (map cname (classes m))) ->
+  NoDup (ctor_calls r) /\
+  (forall m c, in_path path m -> mname m <> "__init__" -> import_fails m = false -> In c (classes m) ->
+     (In (file m, cname c) (ctor_calls r) <-> is_needed c = true)) /\
+  (forall x, In x (ctor_calls r) ->
+     exists m c, in_path path m /\ In c (classes m) /\ is_needed c = true /\ x = (file m, cname c)).
+Proof.
+  intros fms pkgname path r H Hok Hcls. unfold init, import_outcome in H.
+  destruct (path_modules_once path Hok) as [Hnd Hin].
+  assert (Hl : layout_ok (PkgPresent (path_modules path))).
+  { split; simpl.
+    - now apply NoDup_map_filter.
+    - intros m Hm. apply filter_In in Hm. apply Hcls, Hin. tauto. }
+  assert (Hload : forall m, In m (loaded_modules (PkgPresent (path_modules path))) <->
+                            in_path path m /\ mname m <> "__init__" /\ import_fails m = false).
+  { intros m. unfold loaded_modules. simpl. rewrite !filter_In, Hin, !negb_true_iff, String.eqb_neq. tauto. }
+  destruct (instantiated_exactly _ _ _ H Hl) as [I1 [I2 I3]]. split; [exact I1|]. split.
+  - intros m c Hm Hn Hf Hc. apply I2; [|assumption]. apply Hload. auto.
+  - intros x Hx. destruct (I3 x Hx) as [m [c [Hm [Hc He]]]]. exists m, c.
+    apply Hload in Hm as Hm'. destruct Hm' as [Hp _]. repeat split; auto.
+    apply (I2 m c Hm Hc). now rewrite <- He.
 Qed.
